@@ -270,6 +270,10 @@ class Model:
             o = self.D[d['g']].get_new_group_path(d['n'], up)
         elif k == 'K':
             o = Sink(d['n'], up, d['c'], collect_parts=True)
+            if d.get('rvaladd'):
+                # a user callback on the sink changes the part's value: the sink is credited with the value at receipt
+                o.rvaladd = d['rvaladd']
+                o.add_receive_part_callback(recv_value_cb)
         else:
             raise ValueError(k)
         self.D[d['n']] = o
@@ -340,6 +344,12 @@ class Model:
                 # documented clamp: B <- max(B + v, produced)
                 self.budget[S.name] = max(self.budget[S.name] + v, S.produced_parts)
                 S.adjust_part_count(v)
+        elif kind == 'revalue':
+            def f(S=D[a[3]], v=a[4]):
+                # stock that has not left the source yet is revalued (the owner of the parts keeps a reference)
+                note(S.name, v)
+                if S._output is not None:
+                    _add(S._output, 'revalued', v)
         elif kind == 'offset':
             def f(P=D[a[3]], v=a[4]):
                 note(P.name, v)
@@ -399,7 +409,7 @@ def holdings(dev):
         return out
     out += leaves(dev._part) + leaves(dev._output)
     if isinstance(dev, Buffer):
-        for _, p in dev._buffer:
+        for p in dev.stored_parts:      # public accessor: the storage layout is the buffer's own business
             out += leaves(p)
     if isinstance(dev, PartBatcher):
         out += leaves(dev._in_progress_batch)
@@ -417,7 +427,7 @@ def ready_part(dev, env, strict=False):
     if isinstance(dev, Buffer):
         if not dev._buffer:
             return None
-        t0, p = dev._buffer[0]
+        t0, p = dev._buffer[0][0], dev._buffer[0][-1]
         ulp = math.ulp(env.now) if env.now else 5e-324
         if strict:
             from fractions import Fraction
